@@ -165,7 +165,7 @@ func SpreadHistory(rng *rand.Rand, final map[int]Doc, terms []int) []Step {
 			steps = append(steps, Step{Merge: true})
 		}
 	}
-	if rng.Intn(2) == 0 {
+	if rng.Intn(3) == 0 {
 		steps = append(steps, Step{Merge: true})
 	}
 	return steps
